@@ -118,8 +118,9 @@ class _State:
         # make durations tunable
         if self.duration is not None:
             duration_attr = name + "_duration"
-            # don't create it twice (in case of inheritance overriding)
-            if getattr(owner, duration_attr, None) is None:
+            # don't replace a tunable defined on this class; a state redefined
+            # in a subclass gets its own default (not the inherited one)
+            if vars(owner).get(duration_attr) is None:
                 setattr(
                     owner,
                     duration_attr,
